@@ -109,7 +109,13 @@ def run_case(case, keep_world=False, monitors=None):
         res.digest = _digest([res.outcome, res.steps, res.tape, repr(res.results), res.bytes,
                               [(c.client, c.server, c.c2s.written, c.s2c.written) for c in w.net.conns]])
     except BudgetOverrun as exc:
-        res.harness_error = f'budget: {exc}'
+        if opts.get('cap_is_violation'):
+            # used only by fixed cases of known livelock findings (small step cap)
+            res.outcome = 'livelock'
+            res.tape = list(w.tape.rec) if w is not None else []
+            res.violations.append(('livelock/step-cap', f'still exchanging messages after {opts.get("step_cap")} loop iterations: {exc}'))
+        else:
+            res.harness_error = f'budget: {exc}'
     except Exception:
         res.harness_error = 'exception in harness:\n' + traceback.format_exc()
     finally:
